@@ -2,11 +2,13 @@ import Driver.Common
 import Logrange.Proofs.Lql
 /-! Model driver for C12 (LQL print / re-parse). Requests (byte strings hex, `-` = empty):
 
+* `facts` → `ok layout=<hex> format=<0|1>`: how `DateTime.String()` renders an instant in /repo now (regenerated)
 * `lits` → `ok (<struct> <n> <literal>*)*`: the literals of every struct's regenerated grammar, in order (the harness'
   generators spell keywords the way the struct tags do)
 * `lex <text>` → `ok <n> (<type> <value>)*` | `err`                        (token stream after participle's unquote)
 * `stmt <text> <k> (<lit> <ok 0|1> <unixnano> <rendered>)*`                 whole statement, root `Lql`
-    → `ok <canonical AST> | <printed text> | <classes,comma separated or ->` | `err`
+    → `ok <canonical AST> | <printed text> | <classes,comma separated or -> | <td>` | `err | <td>`
+    `<td>`: `na` (not a TRUNCATE statement) | `same[<wf><lexable>]` | `diff:<what the direct TRUNCATE parser returns>`
   the table is the opaque date parser/printer (C20's territory): literal text → parse result and `time.String()` of it
 * `expr <text>` / `source <text>` → `E=<ok canon|err> D=<ok canon|err> P=<printed|-> C=<classes>`
     engine on the regenerated grammar (root `Expression` / `Source`) and the direct parser, printed text of the engine's AST
@@ -59,14 +61,29 @@ def step (_ : Unit) (toks : List String) : Unit × String :=
   | "stmt" :: t :: _k :: rows =>
     let rows := parseRows rows
     (match lex (unhex t) with
-     | none => ((), "err")
+     | none => ((), "err | na")
      | some ts =>
-       match runEngine g "Lql" ts with
-       | none => ((), "err")
-       | some v =>
-         match toLql (dpOf rows) (8 * ts.length + 50) v with
-         | none => ((), "err")
-         | some l => ((), s!"ok {canonLql l} | {hex (printLql (rdOf rows) l)} | {joinC (classes (rdOf rows) l)}"))
+       let eng := (runEngine g "Lql" ts).bind (fun v => toLql (dpOf rows) (8 * ts.length + 50) v)
+       -- TRUNCATE statements also go through the direct parser the theorems are about (+ its two decidable hypotheses)
+       let td :=
+         match ts with
+         | t0 :: _ =>
+           if litMatch t0 kwTRUNCATE then
+             let d := directTruncate (dpOf rows) ts
+             match eng, d with
+             | none, none => "same"
+             | some l, some tr =>
+               if canonLql l == canonLql { truncate := some tr } then
+                 "same" ++ (if wfTruncate (rdOf rows) tr then "1" else "0")
+                   ++ (if lex (printTruncate (rdOf rows) tr) == some (toksTruncate (rdOf rows) tr) then "1" else "0")
+               else "diff:" ++ canonLql { truncate := some tr }
+             | some _, none => "diff:err"
+             | none, some tr => "diff:" ++ canonLql { truncate := some tr }
+           else "na"
+         | [] => "na"
+       match eng with
+       | none => ((), s!"err | {td}")
+       | some l => ((), s!"ok {canonLql l} | {hex (printLql (rdOf rows) l)} | {joinC (classes (rdOf rows) l)} | {td}"))
   | ["expr", t] =>
     (match lex (unhex t) with
      | none => ((), "E=err D=err P=- C=- W=--")
@@ -85,6 +102,8 @@ def step (_ : Unit) (toks : List String) : Unit × String :=
        let sh := fun (x : Option Source) => match x with | some a => "ok " ++ canonSource a | none => "err"
        let w := match e with | some a => (if wfSource a then "1" else "0") ++ (if lex (printSource a) == some (toksSource a) then "1" else "0") | none => "--"
        ((), s!"E={sh e} D={sh d} P={match e with | some a => hex (printSource a) | none => "-"} C={match e with | some a => joinC (sourceClasses a) | none => "-"} W={w}"))
+  | ["facts"] =>
+    ((), s!"ok layout={hex Logrange.Generated.C12.dateLayout} format={if Logrange.Generated.C12.dateUsesFormat then 1 else 0}")
   | ["lits"] =>
     ((), "ok" ++ String.join (Logrange.Generated.C12.structNames.map (fun n =>
       match g n with
